@@ -367,6 +367,11 @@ func ReadFromTeletext(r io.Reader, o TeletextOptions) (s *Subtitles, err error) 
 			return
 		}
 
+		// The demuxer may return no data and no error once it has nothing left
+		if d == nil {
+			break
+		}
+
 		// We only parse PES data
 		if d.PES == nil {
 			continue
@@ -498,6 +503,11 @@ func (b *teletextPageBuffer) dump(lastTime time.Time) (ps []*teletextPage) {
 
 // TODO Add tests
 func (b *teletextPageBuffer) process(d *astits.PESData, t time.Time) (ps []*teletextPage) {
+	// No data
+	if len(d.Data) == 0 {
+		return
+	}
+
 	// Data identifier
 	var offset int
 	dataIdentifier := uint8(d.Data[offset])
@@ -509,7 +519,7 @@ func (b *teletextPageBuffer) process(d *astits.PESData, t time.Time) (ps []*tele
 	}
 
 	// Loop through data units
-	for offset < len(d.Data) {
+	for offset+1 < len(d.Data) {
 		// ID
 		id := uint8(d.Data[offset])
 		offset += 1
@@ -541,6 +551,11 @@ func (b *teletextPageBuffer) process(d *astits.PESData, t time.Time) (ps []*tele
 func (b *teletextPageBuffer) parseDataUnit(i []byte, id uint8, t time.Time) {
 	// Check id
 	if id != teletextPESDataUnitIDEBUSubtitleData {
+		return
+	}
+
+	// A data unit carries 2 bytes, 2 address bytes and a 40 bytes packet
+	if len(i) < 44 {
 		return
 	}
 
@@ -744,7 +759,7 @@ func newTeletextCharacterDecoder() *teletextCharacterDecoder {
 
 // TODO Add tests
 func (d *teletextCharacterDecoder) setTripletM29(i uint32) {
-	if *d.tripletM29 != i {
+	if d.tripletM29 == nil || *d.tripletM29 != i {
 		d.tripletM29 = astikit.UInt32Ptr(i)
 		d.updateCharset(d.lastPageCharsetCode, true)
 	}
@@ -752,7 +767,7 @@ func (d *teletextCharacterDecoder) setTripletM29(i uint32) {
 
 // TODO Add tests
 func (d *teletextCharacterDecoder) setTripletX28(i uint32) {
-	if *d.tripletX28 != i {
+	if d.tripletX28 == nil || *d.tripletX28 != i {
 		d.tripletX28 = astikit.UInt32Ptr(i)
 		d.updateCharset(d.lastPageCharsetCode, true)
 	}
@@ -768,6 +783,11 @@ func (d *teletextCharacterDecoder) decode(i byte) []byte {
 
 // TODO Add tests
 func (d *teletextCharacterDecoder) updateCharset(pageCharsetCode *uint8, force bool) {
+	// No page has been received yet, the charset will be updated when the page is parsed
+	if pageCharsetCode == nil {
+		return
+	}
+
 	// Charset is up to date
 	if d.lastPageCharsetCode != nil && *pageCharsetCode == *d.lastPageCharsetCode && !force {
 		return
